@@ -10,7 +10,7 @@ import (
 
 func init() {
 	debugCmds["osum"] = func(args []string) {
-		p, err := loadProg("/repo", "")
+		p, err := loadProg(debugRepo(), "")
 		if err != nil {
 			fmt.Println(err)
 			os.Exit(2)
@@ -54,7 +54,7 @@ func init() {
 
 func init() {
 	debugCmds["pdebug"] = func(args []string) {
-		p, err := loadProg("/repo", "")
+		p, err := loadProg(debugRepo(), "")
 		if err != nil {
 			fmt.Println(err)
 			os.Exit(2)
@@ -85,7 +85,7 @@ func init() {
 
 func init() {
 	debugCmds["facts"] = func(args []string) {
-		p, err := loadProg("/repo", "")
+		p, err := loadProg(debugRepo(), "")
 		if err != nil {
 			fmt.Println(err)
 			os.Exit(2)
@@ -109,7 +109,7 @@ func init() {
 
 func init() {
 	debugCmds["convs"] = func(args []string) {
-		p, _ := loadProg("/repo", "")
+		p, _ := loadProg(debugRepo(), "")
 		for _, pk := range p.ScopePkgs() {
 			for _, fn := range pkgFunctions(p, pk.PkgPath) {
 				for _, b := range fn.Blocks {
@@ -130,7 +130,7 @@ func init() {
 
 func init() {
 	debugCmds["wlay"] = func(args []string) {
-		p, err := loadProg("/repo", "")
+		p, err := loadProg(debugRepo(), "")
 		if err != nil {
 			fmt.Println(err)
 			os.Exit(2)
@@ -150,7 +150,7 @@ func init() {
 
 func init() {
 	debugCmds["redpaths"] = func(args []string) {
-		p, _ := loadProg("/repo", "")
+		p, _ := loadProg(debugRepo(), "")
 		c, _ := newCtx(p, "DBG", "quick")
 		fn := p.Func("", "*Tx", "ReadFrom")
 		if len(args) > 0 {
@@ -167,7 +167,7 @@ func init() {
 
 func init() {
 	debugCmds["dpaths"] = func(args []string) {
-		p, _ := loadProg("/repo", "")
+		p, _ := loadProg(debugRepo(), "")
 		fn := p.Func(args[0], args[1], args[2])
 		ps, err := feasiblePaths(fn, 5000)
 		fmt.Println(err)
@@ -185,7 +185,7 @@ func init() {
 
 func init() {
 	debugCmds["fieldstores"] = func(args []string) {
-		p, _ := loadProg("/repo", "")
+		p, _ := loadProg(debugRepo(), "")
 		m := map[string]map[string]bool{}
 		for _, fn := range pkgFunctions(p, interpPkg) {
 			for _, b := range fn.Blocks {
@@ -210,7 +210,7 @@ func init() {
 
 func init() {
 	debugCmds["stores"] = func(args []string) {
-		p, _ := loadProg("/repo", "")
+		p, _ := loadProg(debugRepo(), "")
 		fn := p.Func(args[0], args[1], args[2])
 		env := newTermEnv()
 		for _, b := range fn.Blocks {
@@ -238,7 +238,7 @@ func init() {
 
 func init() {
 	debugCmds["hpaths"] = func(args []string) {
-		p, _ := loadProg("/repo", "")
+		p, _ := loadProg(debugRepo(), "")
 		fn := p.Func(args[0], args[1], args[2])
 		var header *ssa.BasicBlock
 		for _, b := range fn.Blocks {
@@ -263,4 +263,11 @@ func init() {
 			fmt.Println("WHEN", callOrdinal.ReplaceAllString(d.CondString(), ""), "\n   =>", strings.Join(rs, " , "))
 		}
 	}
+}
+
+func debugRepo() string {
+	if r := os.Getenv("VERIF_REPO"); r != "" {
+		return r
+	}
+	return "/repo"
 }
